@@ -17,6 +17,7 @@
 #include <set>
 #include <sstream>
 #include <string>
+#include <sys/resource.h>
 #include <sys/wait.h>
 #include <unistd.h>
 #include <vector>
@@ -332,6 +333,12 @@ struct WorkerSummary {
 inline void workerLoop(Harness &h, const DriverArgs &a, int w, int W, uint64_t startIndex, int fd, const KnownFindings &kf) {
   FILE *out = fdopen(fd, "w");
   pinToCpu(w % 16);
+  {
+    // Safety net: code under test that loops while allocating (hexsim's loader on a malformed file
+    // does) ends in bad_alloc after 6 GB instead of taking the machine down.
+    struct rlimit rl; rl.rlim_cur = rl.rlim_max = 6ull << 30;
+    setrlimit(RLIMIT_AS, &rl);
+  }
   h.workerInit();
   std::map<std::string, uint64_t> counters;
   std::set<std::string> keys;
